@@ -452,6 +452,9 @@ func (c *Cluster) dagReplay(variants int) {
 			batch = 1
 			order = c.dag.prioritised(r, base, c.synthNears[vi/2][vi%2])
 			name = fmt.Sprintf("%s#%d", kind, vi)
+			// these orders hold far more events in flight than the reference order the
+			// small caches were sized for: stay inside the supported range
+			cache = 10000
 		}
 		c.stats.fault("insertion-order-variant")
 		name = fmt.Sprintf("%s[%s cache=%d batch=%d events=%d/%d window=%d]", name, storeKind, cache, batch, len(order), len(base), window)
